@@ -218,4 +218,34 @@ CHECKS = {
                  nontrivial=[r'retain_mut'], min_behaviours=5),
         ],
     },
+    "C15": {
+        "rule": "seeded watch scenarios: 4-12 increasing updates, up to 4 receivers created by subscribe/clone and transferred over 0-2 real connections "
+                "at random moments, observing by changed()/borrow_and_update or wait_for at random paces, sender dropped right after its last send, "
+                "optional connection cut; distinct = distinct event sequences; non-trivial = a receiver was transferred while updates were in flight",
+        "assumptions": ["values are increasing integers so that order is decidable from the values"],
+        "legs": [
+            model("Watch_MC.cfg", spec="Watch.tla", min_states=300),
+            dict(kind="trace", name="watch_local", workload="watch", n=(150, 3000), opts={"hops": 0}, tspec="WatchTrace.tla", tcfg="WatchTrace.cfg",
+                 require={r'"ev":"w_final"': 100}, nontrivial=[r'"ev":"w_obs"']),
+            dict(kind="trace", name="watch_hops", workload="watch", n=(200, 3000), opts={"hops": 2}, tspec="WatchTrace.tla", tcfg="WatchTrace.cfg",
+                 require={r'"hops":2': 50, r'"ev":"w_final"': 100}, nontrivial=[r'"hops":[12],']),
+            dict(kind="trace", name="watch_cut", workload="watch", n=(60, 1000), opts={"hops": 2, "cut": 1}, tspec="WatchTrace.tla", tcfg="WatchTrace.cfg",
+                 require={r'"ev":"fault"': 50}, nontrivial=[r'"ev":"fault"']),
+        ],
+    },
+    "C16": {
+        "rule": "seeded broadcast scenarios: 6-14 values, one subscriber that keeps up plus up to 3 subscribers (send buffers 1-3, local or moved to a "
+                "remote endpoint) joining and leaving at random moments and consuming at random paces, sender dropped at the end, optional connection cut; "
+                "distinct = distinct event sequences; non-trivial = at least one lag error was observed",
+        "assumptions": ["values are 1,2,3,... so gaps are decidable from the values"],
+        "legs": [
+            model("Broadcast_MC.cfg", spec="BroadcastMC.tla", min_states=3000),
+            dict(kind="trace", name="bcast_local", workload="bcast", n=(150, 3000), opts={"remote": 0}, tspec="BcastTrace.tla", tcfg="BcastTrace.cfg",
+                 require={r'"r":"lagged"': 30, r'"r":"closed"': 100}, nontrivial=[r'"r":"lagged"']),
+            dict(kind="trace", name="bcast_remote", workload="bcast", n=(200, 3000), opts={"remote": 1}, tspec="BcastTrace.tla", tcfg="BcastTrace.cfg",
+                 require={r'"remote":true': 50}, nontrivial=[r'"r":"lagged"']),
+            dict(kind="trace", name="bcast_cut", workload="bcast", n=(60, 1000), opts={"remote": 1, "cut": 1}, tspec="BcastTrace.tla", tcfg="BcastTrace.cfg",
+                 require={r'"ev":"fault"': 20}, nontrivial=[r'"ev":"fault"']),
+        ],
+    },
 }
